@@ -2053,8 +2053,9 @@ def act_gsymbol_reference(context, nodes):
 def act_gsymbol_string_recognizer(context, nodes):
     recognizer = act_recognizer_str(context, nodes)
 
+    # Terminal names are escaped, thus the reference must be escaped too.
     terminal_ref = Reference(
-        Location(context), recognizer.name, context.extra.imported_with
+        Location(context), escape(recognizer.name), context.extra.imported_with
     )
 
     if terminal_ref.name not in context.extra.inline_terminals:
